@@ -72,7 +72,10 @@ def branchGet (cfg : Cfg) (s : State) (k : Uri) : String :=
         else if file.broken then "hit-stale-broken"
         else if cfg.moddir then
           match s.mods k with
-          | some m => if m.time < file.mtime then "hit-stale-regen" else "hit-stale-modreuse"
+          | some m =>
+            if m.time < file.mtime then "hit-stale-regen"
+            else if Generated.Lookup.moduleChecksSourceName && m.src != f then "hit-stale-regen-othersrc"
+            else "hit-stale-modreuse"
           | none => "hit-stale-regen"
         else "hit-stale-reload"
   | none =>
@@ -87,7 +90,10 @@ def branchGet (cfg : Cfg) (s : State) (k : Uri) : String :=
           match s.mods k with
           | some m =>
             if m.time < file.mtime then (if file.broken then s!"miss-{dn}-broken" else s!"miss-{dn}-regen")
-            else if m.src == (d, k) then s!"miss-{dn}-modreuse" else s!"miss-{dn}-modreuse-othersrc"
+            else if m.src == (d, k) then s!"miss-{dn}-modreuse"
+            else if Generated.Lookup.moduleChecksSourceName then
+              (if file.broken then s!"miss-{dn}-broken" else s!"miss-{dn}-regen-othersrc")
+            else s!"miss-{dn}-modreuse-othersrc"
           | none => if file.broken then s!"miss-{dn}-broken" else s!"miss-{dn}-gen"
         else if file.broken then s!"miss-{dn}-broken" else s!"miss-{dn}-load"
 
